@@ -52,7 +52,7 @@ def build_registry(mods):
                 continue
             reg.add_contract(c)
         for f, mm in m.models.items():
-            reg.models[f] = mm
+            reg.scoped_models.setdefault(m.prop, {})[f] = mm
         for ls in m.loops:
             reg.loops[(ls.qname, ls.ordinal)] = ls
     from contracts import common
